@@ -63,7 +63,9 @@ class Check:
         self.nontrivial: set = set()
         self.dist: dict = {}
         self.samples: list = []
-        self.mismatches: list = []       # correspondence failures (model != implementation)
+        self.mismatches: list = []       # correspondence failures (model != implementation), <= 3 samples per kind
+        self.mismatch_kinds: dict = {}
+        self.mismatch_total = 0
         self.violations: list = []       # property oracle failures on the implementation
         self.known_hits: list = []
         self.benign: int = 0
@@ -102,7 +104,12 @@ class Check:
                 ok = False
             r = Result(c, i, m, ok)
             if not ok:
-                self.mismatches.append({"corr": corr, "line": line, "impl": i, "model": m, "tag": c.tag, "meta": _jsonable(c.meta), "stdout_encoding": c.enc})
+                kind = (corr, i.split(" ")[0:2] if i[:1] == "E" else i[:1], m.split(" ")[0:2] if m[:1] == "E" else m[:1], c.tag)
+                kind = repr(kind)
+                self.mismatch_kinds[kind] = self.mismatch_kinds.get(kind, 0) + 1
+                self.mismatch_total += 1
+                if self.mismatch_kinds[kind] <= 3:
+                    self.mismatches.append({"corr": corr, "line": line, "impl": i, "model": m, "tag": c.tag, "meta": _jsonable(c.meta), "stdout_encoding": c.enc})
             out.append(r)
             if len(self.samples) < 6 and self.rng.random() < 0.02:
                 self.samples.append({"request": short(line, 400), "implementation": short(i, 120), "model": short(m, 120)})
@@ -138,7 +145,7 @@ class Check:
             replay_path = os.path.join(VERIF, "replays", f"{self.prop_id}-{self.seed}-violation.json")
             with open(replay_path, "w") as f:
                 json.dump({"property": self.prop_id, "kind": "property-violation", "seed": self.seed, "tier": self.tier,
-                           "violations": self.violations[:10], "mismatches": self.mismatches[:5],
+                           "violations": self.violations[:10], "mismatch_kinds": self.mismatch_kinds, "mismatches": self.mismatches[:12],
                            "how_to_replay": f"./check {self.prop_id} --replay {replay_path}"}, f, indent=1)
             lines.append(f"VIOLATION property={self.prop_id} replay={replay_path}")
         elif self.mismatches:
@@ -148,7 +155,8 @@ class Check:
                 json.dump({"property": self.prop_id, "kind": "correspondence-broken", "seed": self.seed, "tier": self.tier,
                            "broken_correspondences": sorted({m["corr"] for m in self.mismatches}),
                            "theorems_no_longer_tied_to_code": theorems_tied,
-                           "mismatches": self.mismatches[:10],
+                           "mismatch_kinds": self.mismatch_kinds,
+                           "mismatches": self.mismatches[:30],
                            "oracle_checks_without_failure": self.oracle_checks,
                            "how_to_replay": f"./check {self.prop_id} --replay {replay_path}"}, f, indent=1)
             lines.append(f"VIOLATION property={self.prop_id} replay={replay_path} no-failing-input-found")
@@ -164,7 +172,7 @@ class Check:
             "samples": self.samples[:6] or [{"note": "no sample drawn"}],
             "traces_validated_against_impl": self.evaluations,
             "correspondences_checked": sorted(self.correspondences),
-            "correspondence_mismatches": len(self.mismatches),
+            "correspondence_mismatches": self.mismatch_total,
             "oracle_evaluations": self.oracle_checks,
             "benign_order_differences": self.benign,
             "distribution": dict(sorted(self.dist.items())),
@@ -185,7 +193,7 @@ class Check:
         for ln in lines:
             print(ln)
         print(f"{self.prop_id} {self.tier} seed={self.seed}: {proof['discharged']}/{proof['obligations']} theorems audited, "
-              f"{self.evaluations} cases, {len(self.nontrivial)} distinct non-trivial, {len(self.mismatches)} mismatches, "
+              f"{self.evaluations} cases, {len(self.nontrivial)} distinct non-trivial, {self.mismatch_total} mismatches, "
               f"{len(self.violations)} violations, {wall:.1f}s", file=sys.stderr if rc == 0 else sys.stdout)
         return rc
 
